@@ -391,3 +391,30 @@ def e6(ctx):
                     yield Ob(key_of("C04-E6", c["body"].path, "narrowing-cast-of-type-size"), False,
                              "`%s as u32` is not bounded by a dominating guard: for a type of 4 GiB or more the size is truncated and the handle is smaller than the type" % short(v, 70), ctx.loc(c))
             yield Ob(key_of("C04-E6", b.path, "arith-sites"), n_sites >= 3, "%d arithmetic site(s) reachable from %s, each bounded or justified" % (n_sites, name), b.loc())
+
+
+@rule("C04-E6a", "C04", 1, "align_offset (treated as the intrinsic alignUp at its 16 call sites - every allocation path, the constructors' layout formula, Meta / buffer "
+      "alignment): its own arithmetic cannot wrap for any u32 argument, so an offset within align - 1 of u32::MAX (a nearly full 4 GiB arena, a huge reserved prefix) is "
+      "answered by a value that makes the caller fail, not by a small wrapped offset", also=("C03", "C16"))
+def e6a(ctx):
+    b = ctx.facts.one(r"^align_offset$")
+    ev, res = ctx.eval(b)
+    sites = [a for a in res.log if a["kind"] == "arith" and not a.get("unchecked")]
+    bad = []
+    for a in sites:
+        fs = set(canon(f) for f in ctx.facts_of(ev, a))
+        x, y = canon(a["a"]), canon(a["b"])
+        order = Order(fs, extra_ge0=_bounds_for([x, y], a["body"]))
+        mx = TYMAX.get(a.get("ty") or "", None)
+        if a["op"] == "Sub":
+            ok = order.le(y, x)
+        elif a["op"] == "Add":
+            ok = mx is not None and order.le(add(x, y), const(mx))
+        else:
+            ok = is_const(x) and is_const(y)
+        if not ok:
+            bad.append(a)
+            yield Ob(key_of("C04-E6a", b.path, "%s:%s" % (a["op"].lower(), re.sub(r"[#@][\w/.]+", "", "%s(%s, %s)" % (a["op"], short(x, 40), short(y, 40))))), False,
+                     "%s(%s, %s) in align_offset (%s) can wrap: for offsets within align - 1 of u32::MAX the aligned offset comes out small, the capacity test passes and the cursor "
+                     "/ the header position move backwards" % (a["op"], short(x, 60), short(y, 60), a.get("ty")), ctx.loc(a))
+    yield Ob(key_of("C04-E6a", b.path, "arith-sites"), True, "%d arithmetic site(s) inside align_offset, %d unbounded" % (len(sites), len(bad)), b.loc(), trivial=not bad)
